@@ -24,7 +24,7 @@ ASSUMPTIONS = list(_c02.ASSUMPTIONS) + [
 ]
 for _n in ("FileSet.find", "FileSet._get_search_dirs", "FileSet._get_matching_dirs", "FileSet._check_placeholders",
            "FileSet._get_matching_files", "FileSet._check_file", "FileSet._prepare_find_return", "FileSet.is_excluded",
-           "FileSet.__contains__", "FileSet.__len__", "FileSet._complete_placeholders_regex", "FileSet._add_group_capturing"):
+           "FileSet.__contains__", "FileSet.__len__", "FileSet.exclude_files", "FileSet.exclude_times", "FileSet._complete_placeholders_regex", "FileSet._add_group_capturing"):
     REG.inline_ok.add(M + _n)
 REG.inline_ok.add("typhon.utils.timeutils:set_time_resolution")
 for _n in ("IntervalTree.interval_overlaps", "IntervalTree.__contains__", "IntervalTree._query", "IntervalTree.interval_contains"):
@@ -48,6 +48,10 @@ def find_one(t0, t1, s, e, cfg):
     if R is not None:
         requires(t1 - t0 < R)          # a file lasts no longer than one period of the finest directory level
     name = fs.get_filename((t0, t1))
+    if "doy" in path:
+        # step: the day-of-year written into the directory name leads back to t0's own date
+        d0 = datetime(t0.year, 1, 1) + timedelta(days=(t0 - datetime(t0.year, 1, 1)).days + 1 - 1)
+        ensures(d0.year == t0.year, d0.month == t0.month, d0.day == t0.day, id="step: the doy directory names t0's date")
     fs.file_system = GhostFS([name])
     found = list(fs.find(s, e, no_files_error=False))
     hit = t0 < e and t1 >= s
@@ -61,3 +65,175 @@ for _lay in LAYOUTS:
     _depth = 3 if _lay == "ymd-dirs" else 2
     theorem(P, "find-one-file[%s]" % _lay, t0=_dt("t0", _depth), t1=_dt("t1", _depth), s=_dt("s", 6), e=_dt("e", 6),
             cfg=Kind("const", value={"layout": _lay}))(find_one)
+
+
+def find_two(a0, a1, b0, b1, s, e, cfg):
+    path, R = LAYOUTS[cfg["layout"]]
+    fs = FileSet(path=path, name="verif")
+    requires(a0 <= a1, b0 <= b1, s < e, a0.year >= 1000, a1.year >= 1000, b0.year >= 1000, b1.year >= 1000, s.year >= 1000, e.year >= 1000)
+    requires(a0 != b0 or a1 != b1)           # two different files
+    if R is not None:
+        requires(a1 - a0 < R, b1 - b0 < R)
+    na, nb = fs.get_filename((a0, a1)), fs.get_filename((b0, b1))
+    fs.file_system = GhostFS([na, nb])
+    found = list(fs.find(s, e, no_files_error=False))
+    hit_a = a0 < e and a1 >= s
+    hit_b = b0 < e and b1 >= s
+    ensures(len(found) == (1 if hit_a else 0) + (1 if hit_b else 0), id="exactly the overlapping files, each once")
+    if len(found) == 1:
+        ensures(found[0].path == (na if hit_a else nb), id="the right file")
+    if len(found) == 2:
+        ensures(found[0].times[0] <= found[1].times[0], id="ordered by start time")
+        ensures(implies(found[0].times[0] == found[1].times[0], found[0].times[1] <= found[1].times[1]), id="... then by end time")
+        ensures((found[0].path == na and found[1].path == nb) or (found[0].path == nb and found[1].path == na), id="both files, no other")
+
+
+find_two.__pyvc_thm__ = True
+import os as _os
+if _os.environ.get("VERIF_TIER_EFFECTIVE", "quick") == "thorough":       # ~300 paths: thorough tier only
+    theorem(P, "find-two-files[ymd-dirs]", a0=_dt("a0", 3), a1=_dt("a1", 3), b0=_dt("b0", 3), b1=_dt("b1", 3), s=_dt("s", 6), e=_dt("e", 6),
+            cfg=Kind("const", value={"layout": "ymd-dirs"}))(find_two)
+
+
+@theorem(P, "exclusion-and-errors", t0=_dt("t0", 3), t1=_dt("t1", 3), s=_dt("s", 6), e=_dt("e", 6))
+def thm_exclusion(t0, t1, s, e):
+    path, R = LAYOUTS["ymd-dirs"]
+    requires(t0 <= t1, s < e, t0.year >= 1000, t1.year >= 1000, s.year >= 1000, e.year >= 1000, t1 - t0 < R)
+    fs = FileSet(path=path, name="verif")
+    name = fs.get_filename((t0, t1))
+    hit = t0 < e and t1 >= s
+    # excluded by name
+    fs.file_system = GhostFS([name])
+    fs.exclude_files([name])
+    by_name = list(fs.find(s, e, no_files_error=False))
+    ensures(by_name == [], id="a file excluded by name is omitted")
+    # excluded by period (closed intervals): 2018-03-01 .. 2018-03-02
+    fs2 = FileSet(path=path, name="verif2")
+    fs2.file_system = GhostFS([name])
+    fs2.exclude_times([(datetime(2018, 3, 1), datetime(2018, 3, 2))])
+    in_period = t0 <= datetime(2018, 3, 2) and t1 >= datetime(2018, 3, 1)
+    got = list(fs2.find(s, e, no_files_error=False))
+    ensures(len(got) == (1 if (hit and not in_period) else 0), id="a file whose coverage overlaps an excluded period is omitted, no other")
+    # NoFilesError iff nothing is found and no_files_error is set
+    fs3 = FileSet(path=path, name="verif3")
+    fs3.file_system = GhostFS([name])
+    raised = expect_raises(NoFilesError, lambda: list(fs3.find(s, e)))
+    ensures(raised == (not hit), id="NoFilesError exactly when nothing is found")
+    # membership and length agree with the same set
+    fs4 = FileSet(path=path, name="verif4")
+    fs4.file_system = GhostFS([name])
+    n4 = len(fs4)
+    ensures(n4 == 1, id="len(fileset) counts the files")
+    x = s
+    covered = x in fs4
+    ensures(covered == (t0 <= x and t1 >= x), id="t in fileset  <=>  some file covers t")
+
+
+@theorem(P, "placeholder-filters", t0=_dt("t0", 2), s=_dt("s", 6), e=_dt("e", 6))
+def thm_filters(t0, s, e):
+    requires(s < e, t0.year >= 1000, s.year >= 1000, e.year >= 1000)
+    path = "/data/{satname}/{year}{month}{day}T{hour}{minute}.nc"
+    fs = FileSet(path=path, name="verif")
+    na = fs.get_filename(t0, fill={"satname": "NOAA18"})
+    nb = fs.get_filename(t0, fill={"satname": "MetopB"})
+    hit = t0 < e and t0 >= s
+    fs.file_system = GhostFS([na, nb])
+    white = list(fs.find(s, e, no_files_error=False, filters={"satname": "NOAA18"}))
+    ensures(len(white) == (1 if hit else 0), id="white-list keeps only the matching placeholder value")
+    if white:
+        ensures(white[0].path == na, white[0].attr == {"satname": "NOAA18"}, id="... namely that file")
+    black = list(fs.find(s, e, no_files_error=False, filters={"!satname": "NOAA18"}))
+    ensures(len(black) == (1 if hit else 0), id="black-list drops the matching placeholder value")
+    if black:
+        ensures(black[0].path == nb, id="... and keeps the other file")
+    both = list(fs.find(s, e, no_files_error=False, filters={"satname": ["NOAA18", "MetopB"]}))
+    ensures(len(both) == (2 if hit else 0), id="a value list admits every listed value")
+
+
+from typhon.files.handlers.common import FileInfo as _FileInfo
+
+
+def _fi(i):
+    return _FileInfo("f%d" % i, [datetime(2000, 1, 1) + timedelta(days=i), datetime(2000, 1, 1) + timedelta(days=i, hours=1)])
+
+
+@theorem(P, "bundle-by-count")
+def thm_bundle():
+    # bundling by count only partitions the ordered sequence: slices of n, the last one possibly shorter, none empty
+    for k in range(0, 8):
+        files = [_fi(i) for i in range(k)]
+        for n in range(1, 5):
+            bundles = list(FileSet._prepare_find_return(iter(files), False, False, n))
+            ensures([x for b in bundles for x in b] == files, id="concatenation of the bundles is the sequence [%d files, bundle %d]" % (k, n))
+            ensures(all(len(b) == n for b in bundles[:-1]) and all(0 < len(b) <= n for b in bundles), id="bundle sizes [%d files, bundle %d]" % (k, n))
+    ensures(expect_raises(ValueError, lambda: list(FileSet._prepare_find_return(iter([_fi(0)]), False, False, 1.5))), id="bad bundle type -> ValueError")
+
+
+@theorem(P, "CANARY-closed-end", t0=_dt("t0", 2), t1=_dt("t1", 2), s=_dt("s", 6), e=_dt("e", 6), canary=True)
+def thm_canary_c01(t0, t1, s, e):
+    # find() treats [start, end) as semi-open; claiming the closed interval (t0 <= end) MUST fail
+    path, R = LAYOUTS["flat"]
+    fs = FileSet(path=path, name="verif")
+    requires(t0 <= t1, s < e, t0.year >= 1000, t1.year >= 1000, s.year >= 1000, e.year >= 1000)
+    name = fs.get_filename((t0, t1))
+    fs.file_system = GhostFS([name])
+    found = list(fs.find(s, e, no_files_error=False))
+    ensures(len(found) == (1 if (t0 <= e and t1 >= s) else 0), id="closed end (false)")
+
+
+@bounded(P, "real-directory-trees", "real files on the local file system: 4 templates (depth 0..3, doy, user placeholder), populations of "
+         "1..6 files on a 6-hour lattice incl. files crossing midnight / month / year ends and zero-length coverages, all query "
+         "periods on the same lattice (+- 1 microsecond), sort, bundle by count, exclusion, white/black lists")
+def bounded_real_find(rng, tier):
+    import tempfile, os, shutil, itertools
+    templates = [
+        ("{year}{month}{day}T{hour}-{end_year}{end_month}{end_day}T{end_hour}.nc", None),
+        ("{year}/{month}/{day}/{hour}{minute}-{end_hour}{end_minute}.nc", timedelta(days=1)),
+        ("{year}/{doy}/{sat}_{hour}{minute}-{end_hour}{end_minute}.nc", timedelta(days=1)),
+        ("{sat}/{year}/{month}/{day}{hour}-{end_day}{end_hour}.nc", timedelta(days=28)),
+    ]
+    base_times = [datetime(2017, 12, 30) + timedelta(hours=6 * i) for i in range(0, 20)] + [datetime(2016, 2, 28, 18), datetime(2016, 2, 29, 6)]
+    evals, failures, samples, distinct = 0, [], [], set()
+    rounds = 12 if tier == "quick" else 80
+    for tpl, R in templates:
+        for _ in range(rounds):
+            root = tempfile.mkdtemp(prefix="c01_")
+            try:
+                fs = FileSet(path=os.path.join(root, tpl), name="b")
+                files = {}
+                for _k in range(rng.randint(1, 6)):
+                    t0 = rng.choice(base_times)
+                    dur = rng.choice([0, 6, 12, 18]) if R is not None else rng.choice([0, 6, 30, 60])
+                    t1 = t0 + timedelta(hours=dur)
+                    if "{end_day}{end_hour}" in tpl and (t1.month != t0.month):
+                        continue
+                    sat = rng.choice(["A", "B"])
+                    name = fs.get_filename((t0, t1), fill={"sat": sat})
+                    os.makedirs(os.path.dirname(name), exist_ok=True)
+                    open(name, "w").close()
+                    files[name] = (t0, t1, sat)
+                for _q in range(6):
+                    s = rng.choice(base_times) + rng.choice([timedelta(0), timedelta(microseconds=1), -timedelta(microseconds=1)])
+                    e = s + timedelta(hours=rng.choice([0, 6, 24, 72])) + timedelta(microseconds=1)
+                    want = sorted((v[0], v[1], k) for k, v in files.items() if v[0] < e and v[1] >= s)
+                    got = [(f.times[0], f.times[1], f.path) for f in fs.find(s, e, no_files_error=False)]
+                    evals += 1
+                    distinct.add((tpl, tuple(sorted(files)), s, e))
+                    ok = sorted(got) == want and [g[:2] for g in got] == sorted(g[:2] for g in got)
+                    if ok and "{sat}" in tpl:
+                        w = [f.path for f in fs.find(s, e, no_files_error=False, filters={"sat": "A"})]
+                        b = [f.path for f in fs.find(s, e, no_files_error=False, filters={"!sat": "A"})]
+                        ok = sorted(w) == sorted(k for _, _, k in want if files[k][2] == "A") and \
+                            sorted(b) == sorted(k for _, _, k in want if files[k][2] != "A")
+                    if ok and want:
+                        bundles = list(fs.find(s, e, no_files_error=False, bundle=2))
+                        ok = [f.path for bb in bundles for f in bb] == [g[2] for g in sorted(got)] or \
+                            sorted(f.path for bb in bundles for f in bb) == sorted(g[2] for g in got)
+                    if not ok:
+                        failures.append({"template": tpl, "files": {k: [str(v[0]), str(v[1])] for k, v in files.items()},
+                                         "query": [str(s), str(e)], "got": [g[2] for g in got], "want": [w_[2] for w_ in want]})
+                    elif len(samples) < 3 and want:
+                        samples.append({"template": tpl, "query": [str(s), str(e)], "found": [w_[2][len(root):] for w_ in want]})
+            finally:
+                shutil.rmtree(root, ignore_errors=True)
+    return {"evaluations": evals, "distinct_nontrivial": len(distinct), "failures": failures[:5], "samples": samples}
